@@ -1,3 +1,6 @@
 //! Reference models: boring, independent of the code under test.
+pub mod ast;
+pub mod builtins;
+pub mod interp;
 pub mod ops;
 pub mod value;
